@@ -19,7 +19,15 @@ import (
 // over the same exhaustively enumerated string sets. C17 additionally interprets
 // /repo/jsonpath.peg itself (pegi) and an action model (pmodel) to predict every outcome.
 
-const repoDir = "/repo"
+// repoDir is the tree under test: /repo, unless VERIF_REPO points the whole run (build and
+// files) at a scratch copy (used only for background runs and seeded changes, never by the
+// registered commands).
+var repoDir = func() string {
+	if d := os.Getenv("VERIF_REPO"); d != "" {
+		return d
+	}
+	return "/repo"
+}()
 
 type strUnit struct {
 	kind string // soup, sentences, pumped, suite
